@@ -1232,4 +1232,31 @@ fn run_params(plan: &Plan, lib: &dyn Lib, g: Grp, rec: &mut Rec) {
         let o = rec.call(lib, g, op, &[]);
         rec.expect("C08", "malformed-sets-error", !o.is_ok(), || format!("size-0 | {:?} accepted an empty set", op));
     }
+    // a transient fault of the dealer's entropy source: ONE request of the caller's generator is answered with a block of
+    // zero bytes (or of 0xff bytes), every request in turn. Whatever the dealer does with that block, the sharing is still
+    // t-of-n: t shares give the key, t-1 shares do not.
+    for (t, n) in [(2u64, 3u64), (3, 5), (4, 6)] {
+        for k in 0..(t + 2) {
+            for fill in [0u8, 0xff] {
+                let o = rec.call(lib, g, Op::SplitFaultyRng, &[&sk, &u64b(t), &u64b(n), &s32, &u64b(k), &[fill]]);
+                let Some(shares) = o.clone().ok() else { continue };
+                rec.fault("entropy-source-transient-fault");
+                rec.case(&[4, t, n, g as u64, k, fill as u64], true);
+                let refs: Vec<&[u8]> = shares.iter().map(|b| b.as_slice()).collect();
+                let full = rec.call(lib, g, Op::Combine, &refs[..t as usize]);
+                rec.expect("C08", "key-recombine", full.first() == Some(sk.as_slice()), || format!("faulty-rng t={} n={} request {} answered with {:#04x} bytes | t shares do not recombine to the key: {:?}", t, n, k, fill, full.kind()));
+                if t >= 3 {
+                    let few = rec.call(lib, g, Op::Combine, &refs[..(t - 1) as usize]);
+                    rec.expect("C08", "below-threshold", few.first() != Some(sk.as_slice()), || format!("faulty-rng t={} n={} request {} answered with {:#04x} bytes | t-1 shares recombine to the key (the sharing polynomial lost its top coefficient)", t, n, k, fill));
+                    let few = rec.call(lib, g, Op::Combine, &refs[1..t as usize]);
+                    rec.expect("C08", "below-threshold", few.first() != Some(sk.as_slice()), || format!("faulty-rng t={} n={} request {} | t-1 shares (2..t) recombine to the key", t, n, k));
+                } else {
+                    // t = 2: no single share value may BE the key
+                    for sh in &shares {
+                        rec.expect("C08", "below-threshold", sh[1..] != sk[..] && { let mut r = sh[1..].to_vec(); r.reverse(); r != sk }, || format!("faulty-rng t=2 n={} request {} answered with {:#04x} bytes | a single share holds the key", n, k, fill));
+                    }
+                }
+            }
+        }
+    }
 }
